@@ -646,7 +646,10 @@ with expand_simple_f (fuel : nat) (auto : bool) (mode : bool) (t : table) (new_h
     | inr St_ok =>
       if 58 <? new_hp then (t, inl EUnmodelled) else
       let t1 := rehash_with_workers t in
-      let nm0 := set_workers (new_table (wrap64 (hashsize new_hp * spb c))) (workers t1) in
+      let nm00 := set_workers (new_table (wrap64 (hashsize new_hp * spb c))) (workers t1) in
+      (* new_map.minimum_load_factor(AUTO ? minimum_load_factor() : 0); new_map.maximum_hashpower(...) *)
+      let nm01 := if auto then set_mlf nm00 (mlfn t1) (mlfd t1) else set_mlf nm00 0 1 in
+      let nm0 := set_mhp nm01 (mhp t1) in
       let ins := insert_with (fast_double_f fuel' true) in
       match expand_move_buckets ins (cur t1) nm0 0 (N.to_nat (hashsize hp)) with
       | (src', nm1, Some ex) => (set_cur t1 src', inl ex)
